@@ -109,8 +109,12 @@ class Scheduler:
     """One simulation run."""
 
     def __init__(self, seed=0, policy="fifo", switch_prob=0.2, script=None, max_vtime=100000.0,
-                 max_steps=5_000_000, line_cost=1e-4, randint=None, pct_depth=2, pct_horizon=150):
+                 max_steps=5_000_000, line_cost=1e-4, randint=None, pct_depth=2, pct_horizon=150, wake_lag=None):
         self.now = 0.0
+        # wake_lag = (thread name prefixes, probability, dt): a thread that was woken from a blocking wait is, with that
+        # probability, not run for another dt of virtual time (scheduling latency after a wake-up; any OS may do that)
+        self.wake_lag = wake_lag
+        self.lag_rng = _rrandom.Random(seed ^ 0x1A6)
         self.seed = seed
         self.policy = policy
         self.switch_prob = switch_prob
@@ -337,7 +341,17 @@ class Scheduler:
         me.deadline = None if timeout is None else self.now + max(0.0, float(timeout))
         self._switch(me)
         me.wait_obj = None
-        return not me.timed_out
+        res = not me.timed_out
+        if self.wake_lag is not None and res and wait_obj != ("lag",) and not self.dead:
+            pre, prob, dt = self.wake_lag
+            if any(str(me.name).startswith(p) for p in pre) and self.lag_rng.random() < prob:
+                me.state = BLOCKED
+                me.wait_obj = ("lag",)
+                me.timed_out = False
+                me.deadline = self.now + dt
+                self._switch(me)
+                me.wait_obj = None
+        return res
 
     # ------------------------------------------------------------------ driver API (main thread)
     def settle(self):
@@ -391,14 +405,14 @@ class Scheduler:
 
 def run(main, *, seed=0, policy="fifo", switch_prob=0.2, script=None, max_vtime=100000.0,
         max_steps=5_000_000, line_funcs=(), wall_timeout=120.0, randint=None, line_cost=1e-4,
-        pct_depth=2, pct_horizon=150):
+        pct_depth=2, pct_horizon=150, wake_lag=None):
     """Run `main(sched)` as the main simulated thread; returns the Scheduler (see .outcome)."""
     global _current
     if _current is not None:
         raise SimError("nested simulation")
     sched = Scheduler(seed=seed, policy=policy, switch_prob=switch_prob, script=script,
                       max_vtime=max_vtime, max_steps=max_steps, randint=randint, line_cost=line_cost,
-                      pct_depth=pct_depth, pct_horizon=pct_horizon)
+                      pct_depth=pct_depth, pct_horizon=pct_horizon, wake_lag=wake_lag)
     for f in line_funcs:
         code = getattr(f, "__code__", None) or getattr(getattr(f, "__func__", None), "__code__", None)
         if code is None and isinstance(f, types.CodeType):
